@@ -51,6 +51,10 @@ pub fn line_alphabet(p: P) -> Vec<Vec<u8>> {
 				l(&format!("c\tA\tB\tC\tD{x}")),
 				l(&format!("\tm\t(\tm\tn{x}")),
 				l(&format!("\tf\t[\tx\ty{x}")),
+				// every escape of the format, non-ASCII text and a backslash before a multi-byte character
+				l("\t\tc\t\\r\\t\\0\\\\ é€\u{1F600} \\é\\"),
+				l(&format!("c\tÉ/é\t€{}", if p == P::Tiny3 { "\t\u{1F600}" } else { "" })),
+				l(&format!("\u{85}c\tA\tB{x}")),
 			]
 		},
 		P::TinyDiff => vec![
@@ -76,6 +80,9 @@ pub fn line_alphabet(p: P) -> Vec<Vec<u8>> {
 			l("c\tA\tA\tB\tC"),
 			l("\tm\t(\tm\tm\tn"),
 			l("tiny\t2\t0\textra"),
+			l("\t\tc\t\\r\\t\\0 é\\\t€\u{1F600}\\é\\"),
+			l("c\tÉ/é\t€\t\u{1F600}"),
+			l("\u{85}c\tA\tA\tB"),
 		],
 		P::Enigma => vec![
 			l("CLASS A B"),
@@ -101,6 +108,11 @@ pub fn line_alphabet(p: P) -> Vec<Vec<u8>> {
 			l("\tMETHOD m ("),
 			l("\tFIELD x y z ACC:PRIVATE"),
 			l("CLASS A$B C$D"),
+			l("CLASS É/é €\u{1F600}"),
+			l("\tCOMMENT # é € \u{1F600} #"),
+			l("\u{85}CLASS\u{3000}A\u{a0}B\u{2028}"),
+			l("CLASS  A  B"),
+			l("\tMETHOD m n (I)V ACC:é"),
 		],
 		P::Nests => vec![
 			l("a/B$1\ta/B\tm\t()V\t1\t0x0008"),
@@ -123,6 +135,19 @@ pub fn line_alphabet(p: P) -> Vec<Vec<u8>> {
 			cat(&[b"a/B$C\t", &long(b'a', LONG), b"\t\t\tC\t8"]),
 			l("a.b\ta/B\t\t\tC\t8"),
 			l("a/B$C\ta/B\t\t\t[C\t65535"),
+			// the access flags in every shape a number parser can meet: upper-case prefixes, signs, blanks, multi-byte
+			// characters at every byte offset of the prefix
+			l("a/B$C\ta/B\t\t\tC\t0X10"),
+			l("a/B$C\ta/B\t\t\tC\t0B1"),
+			l("a/B$C\ta/B\t\t\tC\t+8"),
+			l("a/B$C\ta/B\t\t\tC\t0x+8"),
+			l("a/B$C\ta/B\t\t\tC\t 8"),
+			l("a/B$C\ta/B\t\t\tC\t1é"),
+			l("a/B$C\ta/B\t\t\tC\t€"),
+			l("a/B$C\ta/B\t\t\tC\t0\u{1F600}"),
+			l("a/B$C\ta/B\t\t\tC\t0xé"),
+			l("É/é$€\tÉ/é\tµ\t(Lé;)V\t€\t8"),
+			l("a/B$1é\ta/B\t\t\t1é\t8"),
 		],
 		_ => Vec::new(),
 	}
@@ -132,11 +157,11 @@ pub fn line_alphabet(p: P) -> Vec<Vec<u8>> {
 pub fn seeds(p: P) -> Vec<Vec<u8>> {
 	let l = |s: &str| s.as_bytes().to_vec();
 	match p {
-		P::Tiny2 => vec![l("tiny\t2\t0\tofficial\tnamed\nc\ta\tpkg/Alpha\n\tc\tA class.\\nSecond line with \\\\ backslash.\n\tf\tI\ta\tcount\n\t\tc\tfield comment\n\tf\tLa;\tb\tself\n\tm\t(ILa;)V\ta\trun\n\t\tc\tmethod comment\n\t\tp\t1\t\tamount\n\t\t\tc\tparameter comment\n\t\tp\t2\t\tother\n\tm\t()V\t<init>\t<init>\nc\ta$b\tpkg/Alpha$Inner\n\tf\t[[J\tc\t\nc\td\t\n")],
-		P::Tiny3 => vec![l("tiny\t2\t0\tofficial\tintermediary\tnamed\nc\ta\tnet/C_1\tpkg/Alpha\n\tc\tA class.\n\tf\tI\ta\tf_1\tcount\n\tm\t(ILa;)V\ta\tm_1\trun\n\t\tp\t1\t\tp_1\tamount\n\t\t\tc\tparameter comment\nc\tb\t\tpkg/Beta\n\tm\t()La;\tb\t\tmake\n")],
-		P::TinyDiff => vec![l("tiny\t2\t0\nc\ta\tpkg/Alpha\tpkg/Alpha2\n\tc\told class comment\tnew class comment\n\tf\tI\ta\tcount\tcounter\n\t\tc\t\tadded comment\n\tf\tLa;\tb\tself\t\n\tm\t(ILa;)V\ta\trun\trun\n\t\tc\tremoved\t\n\t\tp\t1\t\tamount\tqty\n\t\t\tc\told \\n\tnew \\\\\n\t\tp\t2\t\t\tadded\nc\tb\t\tpkg/Added\nc\tc\tpkg/Removed\t\n")],
-		P::Enigma => vec![l("CLASS a pkg/Alpha\n\tCOMMENT A class.\n\tCOMMENT Second line with # hash\n\tFIELD a count I\n\t\tCOMMENT field comment\n\tFIELD b La;\n\tMETHOD a run (ILa;)V\n\t\tCOMMENT method comment\n\t\tARG 1 amount\n\t\t\tCOMMENT parameter comment\n\t\tARG 2 other\n\tMETHOD <init> ()V\n\tCLASS b Inner ACC:PUBLIC\n\t\tFIELD c [[J # trailing comment\n\t\tCLASS c\n\t\t\tMETHOD m ()V\nCLASS d\n")],
-		P::Nests => vec![l("a/B$1\ta/B\trun\t(I)V\t1\t0x0008\na/B$C\ta/B\t\t\tC\t9\na/B$1Local\ta/B\tm\t()V\t1Local\t0b1010\nx/Y$Z$W\tx/Y$Z\t\t\tW\t65535\n")],
+		P::Tiny2 => vec![l("tiny\t2\t0\tofficial\tnamed\nc\ta\tpkg/Alpha\n\tc\tA class.\\nSecond line with \\\\ backslash.\n\tf\tI\ta\tcount\n\t\tc\tfield comment\n\tf\tLa;\tb\tself\n\tm\t(ILa;)V\ta\trun\n\t\tc\tmethod comment\n\t\tp\t1\t\tamount\n\t\t\tc\tparameter comment\n\t\tp\t2\t\tother\n\tm\t()V\t<init>\t<init>\nc\ta$b\tpkg/Alpha$Inner\n\tf\t[[J\tc\t\nc\td\t\n"), l("tiny\t2\t0\tofficiél\tnamed€\nc\té\tpkg/Élpha\u{1F600}\n\tc\tEvery escape: \\n \\r \\t \\0 \\\\ unknown \\q \\é, € and \u{1F600}; ends in one \\\n\tf\tLé;\t€\tcôunt\n\t\tc\t\\\n\tm\t(L€;[Lé;)Lé;\t\u{1F600}\trün\n\t\tp\t65535\t\tπ\n\t\t\tc\té\\\nc\té$€\tpkg/Élpha\u{1F600}$Ïnner\n")],
+		P::Tiny3 => vec![l("tiny\t2\t0\tofficial\tintermediary\tnamed\nc\ta\tnet/C_1\tpkg/Alpha\n\tc\tA class.\n\tf\tI\ta\tf_1\tcount\n\tm\t(ILa;)V\ta\tm_1\trun\n\t\tp\t1\t\tp_1\tamount\n\t\t\tc\tparameter comment\nc\tb\t\tpkg/Beta\n\tm\t()La;\tb\t\tmake\n"), l("tiny\t2\t0\toffi€ial\tintermédiary\tnamed\u{1F600}\nc\té\tnet/C_é\tpkg/Élpha\n\tc\t\\t\\r\\0é€\u{1F600}\\\n\tf\tLé;\t€\tf_€\tcôunt\n\tm\t(L€;)V\t\u{1F600}\tm_é\t\n\t\tp\t0\t\t\tπ\n\t\t\tc\t€\\n\n")],
+		P::TinyDiff => vec![l("tiny\t2\t0\nc\ta\tpkg/Alpha\tpkg/Alpha2\n\tc\told class comment\tnew class comment\n\tf\tI\ta\tcount\tcounter\n\t\tc\t\tadded comment\n\tf\tLa;\tb\tself\t\n\tm\t(ILa;)V\ta\trun\trun\n\t\tc\tremoved\t\n\t\tp\t1\t\tamount\tqty\n\t\t\tc\told \\n\tnew \\\\\n\t\tp\t2\t\t\tadded\nc\tb\t\tpkg/Added\nc\tc\tpkg/Removed\t\n"), l("tiny\t2\t0\nc\té\tpkg/Élpha\tpkg/Élpha€\n\tc\told é\\\tnew € \\r\\t\\0\n\tf\tLé;\t€\tcôunt\t\u{1F600}\n\t\tc\t\t\\\n\tm\t(L€;)V\t\u{1F600}\trün\trün\n\t\tp\t65535\t\tπ\tρ\n\t\t\tc\té\\\t\nc\t€\t\tpkg/Ädded\n")],
+		P::Enigma => vec![l("CLASS a pkg/Alpha\n\tCOMMENT A class.\n\tCOMMENT Second line with # hash\n\tFIELD a count I\n\t\tCOMMENT field comment\n\tFIELD b La;\n\tMETHOD a run (ILa;)V\n\t\tCOMMENT method comment\n\t\tARG 1 amount\n\t\t\tCOMMENT parameter comment\n\t\tARG 2 other\n\tMETHOD <init> ()V\n\tCLASS b Inner ACC:PUBLIC\n\t\tFIELD c [[J # trailing comment\n\t\tCLASS c\n\t\t\tMETHOD m ()V\nCLASS d\n"), l("CLASS é pkg/Élpha\u{1F600}\n\tCOMMENT é € \u{1F600} # \\\n\tFIELD € côunt Lé;\n\t\tCOMMENT \u{3000}ideographic space\n\tMETHOD \u{1F600} rün (L€;[Lé;)Lé;\n\t\tARG 65535 π\n\t\t\tCOMMENT é\n\tCLASS € Ïnner ACC:PÜBLIC\n\t\tFIELD ö [[Lé; # trailing € comment\nCLASS ü\u{a0}\n")],
+		P::Nests => vec![l("a/B$1\ta/B\trun\t(I)V\t1\t0x0008\na/B$C\ta/B\t\t\tC\t9\na/B$1Local\ta/B\tm\t()V\t1Local\t0b1010\nx/Y$Z$W\tx/Y$Z\t\t\tW\t65535\n"), l("é/B$1\té/B\trün\t(Lé;)V\t1\t0x0008\né/B$€\té/B\t\t\t€\t9\né/B$1Löcal\té/B\tm\t()V\t1Löcal\t0b1010\n\u{1F600}/Y$Z$W\t\u{1F600}/Y$Z\t\t\tW\t65535\n")],
 		_ => Vec::new(),
 	}
 }
@@ -209,4 +234,29 @@ pub fn cells(p: P, text: &[u8]) -> Vec<(usize, usize)> {
 		pos += line.len() + 1;
 	}
 	out
+}
+
+/// The character alphabet of the "short strings in every cell" spaces: the characters the parsers treat
+/// specially (radix prefixes and digits of the nests access flags, descriptor and class name punctuation, the
+/// escape character, Enigma's separators) and characters of every UTF-8 width (2, 3 and 4 bytes), two of them
+/// Unicode white space. `core` = the reduced set used one length deeper.
+pub fn char_alphabet(core: bool) -> Vec<Vec<u8>> {
+	let full: &[&str] = &["0", "x", "b", "1", "a", "L", "/", "$", ";", "[", "(", ")", "<", ".", "-", "+", "\\", "n", "#", " ", ":", "\t", "é", "€", "\u{1F600}", "\u{85}", "\u{3000}"];
+	let reduced: &[&str] = &["0", "x", "1", "a", "/", "$", ";", "\\", " ", "\t", "é", "€", "\u{85}"];
+	(if core { reduced } else { full }).iter().map(|s| s.as_bytes().to_vec()).collect()
+}
+
+/// The byte strings of the single-edit space over text seeds: at every byte position each of them is inserted, and put
+/// in place of the byte there (and the byte is deleted). Separators, the escape character, lone UTF-8 lead and
+/// continuation bytes (the result is not UTF-8) and whole characters of every width (the result is UTF-8 with a
+/// multi-byte character at that offset).
+pub fn edit_symbols() -> Vec<Vec<u8>> {
+	let mut v: Vec<Vec<u8>> = ["\t", "\n", "\r", " ", "\\", "#", "0", "é", "€", "\u{1F600}", "\u{85}"].iter().map(|s| s.as_bytes().to_vec()).collect();
+	v.extend([vec![0x80u8], vec![0xc3], vec![0xe2, 0x82], vec![0xf0], vec![0xff], vec![0]]);
+	v
+}
+
+/// the line alphabet without the very long lines (used one line deeper than the full alphabet)
+pub fn short_line_alphabet(p: P) -> Vec<Vec<u8>> {
+	line_alphabet(p).into_iter().filter(|l| l.len() < 1024).collect()
 }
